@@ -439,23 +439,19 @@ def run_shadow(prop, tier, seed, groups):
         jobs += crossed_jobs(rng, 400 if tier == "quick" else 10000, len(jobs) + 1)
         jobs += adjacent_jobs(rng, 300 if tier == "quick" else 8000, len(jobs) + 1)
         jobs += config_jobs(rng, 250 if tier == "quick" else 5000, len(jobs) + 1)
-    ev_lists = core.pmap(exec_any, jobs)
-    events = [e for evs in ev_lists for e in evs]
-    verdicts, vstats = core.validate("Trace_Shadow", events)
-    by_tid = {j["tid"]: (j, evs) for j, evs in zip(jobs, ev_lists)}
+    hits, vstats, n_events, samples = core.exec_validate(exec_any, jobs, "Trace_Shadow", batch=40000, count=lambda e: any(e.get("rets", [])))
+    reported = vstats.pop("counted", 0)
     out = []
-    for v in verdicts:
+    for v, j, evs in hits:
         if not (v["clause"].startswith(prop + ".") or v["clause"].startswith("machinery") or v["clause"].startswith("C01.")):
             continue   # the other property's clause: reported by that property's own check
-        j, evs = by_tid[v["tid"]]
         ev = next((x for x in evs if x["i"] == v["i"]), evs[0])
         out.append(dict(clause=v["clause"], features=dict(origin=j["origin"], rets=ev.get("rets")), case=j, events=evs))
     distinct = {json.dumps([j["plat"], j["b"], j["t"], j.get("muts")], sort_keys=True) for j in jobs if j["b"] != j["t"]}
-    reported = sum(1 for e in events if any(e.get("rets", [])))
     cov = dict(
         states=sum(m.get("states", 0) for m in mcs) + sum(g["states"] for g in gens),
         transitions=sum(m.get("states", 0) for m in mcs), distinct_states=sum(m.get("distinct", 0) for m in mcs),
-        traces_validated_against_impl=len(jobs), evaluations=len(events), distinct_nontrivial=len(distinct),
+        traces_validated_against_impl=len(jobs), evaluations=n_events, distinct_nontrivial=len(distinct),
         positive_answers=reported,
         rule="one trace = one ordered pair (bottom, top) of live Ace objects asked bottom.shadow_of(top, skip) for skip in "
              "{none, [addrgroup], [nc_wildcard], both, both reversed}, then (for grouped addresses) re-asked after "
@@ -468,7 +464,7 @@ def run_shadow(prop, tier, seed, groups):
              "of neighbouring blocks; same group name with other members; pairs taken from acls() on configurations with "
              "nested groups; non-trivial = bottom text differs from top; distinct = "
              "distinct (platform, texts, members, edits)",
-        samples=[dict(job=jobs[i], events=ev_lists[i]) for i in (0, len(jobs) // 2, len(jobs) - 1)],
+        samples=[dict(job=j_, events=e_) for j_, e_ in samples],
         model_checking=mcs, generation=gens, trace_validation=vstats, exhaustive=False,
         checker_cmd="tlc MC_AceSem / MC_AceSem_dst (L_Sym, L_LibSound, L_Mono, L_LibExact, L_Nothing); tlc Trace_Shadow",
     )
